@@ -258,7 +258,7 @@ class Check:
             "coverage": cov, "assumptions": self.assumptions,
             "wall_s": round(time.time() - self.t0, 2), "violations": len(self.violations),
         }
-        evdir = os.path.join(VERIF, "evidence")
+        evdir = os.path.join(VERIF, "extras" if self.pid.startswith("X") else "evidence")   # X..: extra checks beyond the listed properties
         if os.environ.get("VERIF_NO_EVIDENCE") or REPO != "/repo":
             evdir = self.work          # a run against another tree (seeded change) must not overwrite the evidence of /repo
         os.makedirs(evdir, exist_ok=True)
